@@ -46,7 +46,47 @@ def _dispatch(node: Any, methods: list[str], strict: bool) -> str | None:
     return None
 
 
-def make_harness(shapes_, method_sets, prepare=None):
+def build_stale_twins(recipe):
+    """Build the tree so that equal sibling subtrees are *twins*: distinct, equal node objects
+    sharing their ids (ids are unique among registered nodes only: each earlier sibling has left
+    the registry -- detach() -- before its equal later sibling is built)."""
+    from models.zoo import CLASSES, _is_recipe
+
+    cls, props, origin_, kids = recipe
+    kw = dict(props)
+    for fname, val in kids:
+        if val is None:
+            kw[fname] = None
+        elif _is_recipe(val):
+            kw[fname] = build_stale_twins(val)
+        else:
+            built = []
+            for i, c in enumerate(val):
+                n = build_stale_twins(c)
+                if any(c == later for later in val[i + 1 :]):
+                    n.detach()
+                built.append(n)
+            kw[fname] = tuple(built)
+    if origin_ is not None:
+        from models.zoo import origin as _o
+
+        kw["origin"] = _o(origin_)
+    return CLASSES[cls](**kw)
+
+
+def _twin_shapes():
+    L = lambda v: R("VLeaf", {"v": v})  # noqa: E731
+    return [
+        R("VMany", items=(L(1), L(2), L(1))),
+        R("VMany", items=(L(1), L(1))),
+        R("VMany", items=(L(1), L(1), L(1))),
+        R("VMany", items=(R("VReq", child=L(1)), L(2), R("VReq", child=L(1)))),
+        R("VMixed", {"v": 5}, first=L(1), items=(L(1), L(1)), one=None),
+        R("VReq", child=R("VMany", items=(L(1), L(1), L(2)))),
+    ]
+
+
+def make_harness(shapes_, method_sets, prepare=None, builder=None):
     def harness(e):
         from pyoak.visitor import ASTTransformVisitor
 
@@ -62,7 +102,7 @@ def make_harness(shapes_, method_sets, prepare=None):
             recipe = falsify(recipe)
         mset = e.pick(method_sets, "methods_on")
         methods = METHOD_SETS[mset]
-        root = build(recipe)
+        root = (builder or build)(recipe)
         strict = e.bool("strict")
         inherited_base = [False]
         actions: dict[int, str] = {}
@@ -415,6 +455,8 @@ def spec(tier: str, seed: int) -> Spec:
 
     for first in (("MNamed",) if tier == "quick" else ("MNamed", "MFunc")):
         fams.append(Family(f"multiple-inheritance-first-{first}", make_harness([], ["leaf-class-only"] if tier == "quick" else ["leaf-class-only", "base-class-only", "none"], prepare=lambda e, _f=first: _mi_prepare(e, (_f,))), variables=var + "; freshly created classes with multiple inheritance / plain dataclass mixins / empty bodies"))
+    for k, shp in enumerate(_twin_shapes()):
+        fams.append(Family(f"stale-twins[{k}]", make_harness([shp], ["own-classes", "leaf-class-only"], builder=build_stale_twins), variables=var + "; equal siblings are distinct objects sharing one id (the earlier one left the registry first)"))
     fams.append(Family("visitor-object-reused", reuse_harness, variables="selectors: rule variant, strict, whether earlier inputs stay alive; 40 transforms by one visitor object per path"))
     fams.append(Family("mixin-in-mro", make_harness(mixed, ["base-class-only", "leaf-class-only", "root-class-only", "sub-leaf-and-leaf", "own-classes"]), variables=var + "; classes with a non-node mixin before / after the node base, and a diamond"))
     return Spec(
